@@ -47,7 +47,7 @@ LEVEL_TEXT = (
     "buffer/first-frame/finalize code and is tied to it by exact-integer correspondence through the public API. "
     "Short-integration computers: si_stream_eq_full (Props/C03.lean) proves the same for every WF configuration - which "
     "contains the property's precondition - over any commutative ring, for every chunking; tied by IntFIR exact-integer "
-    "correspondence."
+    "correspondence and, for the integer bookkeeping (reset, chunk planning, finalize), by translation (SiTie)."
 )
 LEVEL_NOTE = (
     "Trusted: np.pad symmetric / slicing semantics as modelled; tracer bank+window; Lean kernel + std axioms. "
